@@ -1707,10 +1707,12 @@ func (s *efState) paramUsed(fn *ssa.Function, pi, ridx int) bool {
 }
 
 type keptRes struct {
-	ok    bool
-	cells []fieldKey
-	fns   []*ssa.Function // the functions that do the keeping (the callee and the helpers it returns through)
-	busy  bool
+	ok     bool
+	cells  []fieldKey
+	fns    []*ssa.Function // the functions that do the keeping (the callee and the helpers it returns through)
+	busy   bool
+	stored bool // some value of the result is kept by a store (here or in a helper it returns through); a result
+	// that is ok and not stored is only ever READ from the cells: the function is a getter of the field(s)
 }
 
 // fieldOfStore: the (type, field) a store instruction writes, for fields of named struct types
@@ -1753,6 +1755,11 @@ func (s *efState) keptResult(fn *ssa.Function, idx int) *keptRes {
 	r.busy = false
 	r.ok = ok && nret > 0
 	r.fns = append(r.fns, fn)
+	if r.ok && !r.stored && writesCells(fn, r.cells) {
+		// it returns what the field holds after having written the field itself (`p.f = poll(); return p.get()`):
+		// that is keeping, not getting
+		r.stored = true
+	}
 	return r
 }
 
@@ -1795,6 +1802,7 @@ func (s *efState) keptValue(fn *ssa.Function, v ssa.Value, at *ssa.BasicBlock, r
 			sb := st.Block()
 			if sb.Dominates(at) {
 				r.cells = append(r.cells, fk)
+				r.stored = true
 				return true
 			}
 			// if v != nil { field = v } ... return v
@@ -1809,6 +1817,7 @@ func (s *efState) keptValue(fn *ssa.Function, v ssa.Value, at *ssa.BasicBlock, r
 						if c, ok := other.(*ssa.Const); ok && c.IsNil() &&
 							((bo.Op == token.NEQ && p.Succs[0] == sb) || (bo.Op == token.EQL && p.Succs[1] == sb)) {
 							r.cells = append(r.cells, fk)
+							r.stored = true
 							return true
 						}
 					}
@@ -1832,7 +1841,12 @@ func (s *efState) keptValue(fn *ssa.Function, v ssa.Value, at *ssa.BasicBlock, r
 				sub := s.keptResult(f, ridx)
 				if sub.ok {
 					r.cells = append(r.cells, sub.cells...)
-					r.fns = append(r.fns, sub.fns...)
+					if sub.stored {
+						r.stored = true
+						r.fns = append(r.fns, sub.fns...)
+					}
+					// else f is a getter: it only hands out the value the field holds, it keeps nothing.  It is
+					// not a keeper; its call sites are reads of the field (fieldReadTowardsAPI follows them)
 					return true
 				}
 			}
@@ -1842,7 +1856,10 @@ func (s *efState) keptValue(fn *ssa.Function, v ssa.Value, at *ssa.BasicBlock, r
 }
 
 // fieldReadTowardsAPI: the field is read, outside the functions that keep the value in it, by an instruction
-// whose value goes into a node that can arrive at an entry point (so the kept value is not just parked)
+// whose value goes into a node that can arrive at an entry point (so the kept value is not just parked).  A load
+// that only makes the result of a getter (a function whose result is, on every return, the value of the field
+// and nothing else) is followed to the getter's callers: each call of the getter outside the keepers is a read
+// of the field, and it counts when the value of THAT call goes into a node that can arrive at an entry point.
 func (s *efState) fieldReadTowardsAPI(fk fieldKey, keepers []*ssa.Function) bool {
 	if s.feedsAPI == nil {
 		s.feedsAPI = map[*EFNode]bool{}
@@ -1869,19 +1886,11 @@ func (s *efState) fieldReadTowardsAPI(fk fieldKey, keepers []*ssa.Function) bool
 		}
 	}
 	for _, ld := range s.fldLoads[fk] {
-		inKeeper := false
-		for _, f := range keepers {
-			if ld.Parent() == f {
-				inKeeper = true
-			}
-		}
-		if inKeeper || !s.visitedV[ld] {
+		if inFns(ld.Parent(), keepers) || !s.visitedV[ld] {
 			continue
 		}
-		for n := range s.feedsAPI {
-			if n.consumed[ld] {
-				return true
-			}
+		if s.readTowardsAPI(ld, keepers, map[funKey]bool{}) {
+			return true
 		}
 	}
 	return false
@@ -1901,8 +1910,13 @@ func (s *efState) resultKept(call *ssa.Call, eidx int) bool {
 	if !r.ok || len(r.cells) == 0 {
 		return false
 	}
+	keepers := r.fns
+	if !r.stored {
+		// the callee is itself a getter: nothing is kept by this call, the value stays where it was read from
+		keepers = nil
+	}
 	for _, fk := range r.cells {
-		if !s.fieldReadTowardsAPI(fk, r.fns) {
+		if !s.fieldReadTowardsAPI(fk, keepers) {
 			return false
 		}
 	}
@@ -2253,4 +2267,98 @@ func pollIntervalByRole(p *packages.Package) string {
 		}
 	}
 	return res
+}
+
+// ---- getters of a kept field (robust3/07b) ----------------------------------------------------------------
+
+func inFns(f *ssa.Function, fns []*ssa.Function) bool {
+	for _, g := range fns {
+		if f == g {
+			return true
+		}
+	}
+	return false
+}
+
+// writesCells: fn itself stores into one of the fields
+func writesCells(fn *ssa.Function, cells []fieldKey) bool {
+	for _, b := range fn.Blocks {
+		for _, ins := range b.Instrs {
+			if st, ok := ins.(*ssa.Store); ok {
+				if fk, ok := fieldOfAddr(st.Addr); ok {
+					for _, c := range cells {
+						if c == fk {
+							return true
+						}
+					}
+				}
+			}
+		}
+	}
+	return false
+}
+
+// isGetter: result idx of fn is, on every return, the value some struct field holds (or nil) and nothing else:
+// no store keeps it, no keeper is returned through, and fn does not write the field
+func (s *efState) isGetter(fn *ssa.Function, idx int) bool {
+	if fn == nil || len(fn.Blocks) == 0 || idx >= fn.Signature.Results().Len() || !s.isErrorType(fn.Signature.Results().At(idx).Type()) {
+		return false
+	}
+	if _, in := s.scope[fn.Pkg]; !in {
+		return false
+	}
+	r := s.keptResult(fn, idx)
+	return r.ok && !r.busy && !r.stored && len(r.cells) > 0
+}
+
+// readTowardsAPI: the value v (a load of the kept field, or a call of a getter of it) goes into a node that can
+// arrive at an entry point.  Where the only such node is the result of a getter v sits in, the question is asked
+// again for every static call of that getter outside the keepers (the value of that call, not of all calls:
+// the getter's result node is shared by all its callers, the keepers included).
+func (s *efState) readTowardsAPI(v ssa.Value, keepers []*ssa.Function, seen map[funKey]bool) bool {
+	ins, ok := v.(ssa.Instruction)
+	if !ok {
+		return false
+	}
+	host := ins.Parent()
+	var via []funKey
+	for n := range s.feedsAPI {
+		if !n.consumed[v] {
+			continue
+		}
+		if k, ok := n.key.(funKey); ok && k.fn == host && s.isGetter(k.fn, k.idx) {
+			via = append(via, k)
+			continue
+		}
+		return true
+	}
+	for _, k := range via {
+		if seen[k] {
+			continue
+		}
+		seen[k] = true
+		node := s.cg.Nodes[k.fn]
+		if node == nil {
+			continue
+		}
+		for _, e := range node.In {
+			call, ok := e.Site.(*ssa.Call)
+			if !ok || call.Common().IsInvoke() || staticCallee(call.Common()) != k.fn || inFns(call.Parent(), keepers) {
+				continue
+			}
+			var cv ssa.Value = call
+			if k.fn.Signature.Results().Len() > 1 {
+				cv = nil
+				for _, ref := range *call.Referrers() {
+					if ex, ok := ref.(*ssa.Extract); ok && ex.Index == k.idx {
+						cv = ex
+					}
+				}
+			}
+			if cv != nil && s.visitedV[cv] && s.readTowardsAPI(cv, keepers, seen) {
+				return true
+			}
+		}
+	}
+	return false
 }
